@@ -590,6 +590,14 @@ func (c *handlerCtx) bindReply(header Header) interface{} {
 
 	// unlock: handleReply
 	c.callCmd.mu.Lock()
+	if c.callCmd.hasReply() || !c.callCmd.stat.OK() {
+		// the call was completed (by an earlier reply frame or a cancellation)
+		// while this frame was waiting for its lock: it must not complete again
+		c.callCmd.mu.Unlock()
+		c.callCmd = nil
+		Warnf("not found call cmd: %v", c.input)
+		return nil
+	}
 	c.input.SetServiceMethod(c.callCmd.output.ServiceMethod())
 	c.swap = c.callCmd.swap
 	c.callCmd.inputBodyCodec = c.GetBodyCodec()
